@@ -221,7 +221,7 @@ def cases(rng, tier, shard, nshards):
             lines.append("E\t%s\t%s%s\t%s%s\t0\t5\t15\t20$\t*" % (eid, p[0], p[1], q[0], q[1]))
         groups = []
         expect = {}
-        kind = rng.choice(["path", "path", "nested", "broken", "multiline", "set"])
+        kind = rng.choice(["path", "path", "nested", "nested", "broken", "multiline", "multinested", "set"])
         walk = random_walk(rng, segs, edges, rng.randint(1, 4))
         if kind == "path":
             items, _ = present(rng, walk, edges)
@@ -246,8 +246,16 @@ def cases(rng, tier, shard, nshards):
             sign = rng.choice("+-")
             stored = sub if sign == "+" else [(w[0], inv(w[1])) for w in reversed(sub)]
             sub_items, ends_seg = present(rng, stored, edges)
-            if not ends_seg or sub_items[0][:-1] not in segs or sub_items[-1][:-1] not in segs:
+            edge_ends = rng.random() < 0.5      # the nested path may begin / end with an edge item
+            if not edge_ends and (not ends_seg or sub_items[0][:-1] not in segs or sub_items[-1][:-1] not in segs):
                 sub_items, _ = present(rng, stored, edges, "full")
+            if edge_ends and len(stored) >= 3 and rng.random() < 0.6:
+                # force it: drop the first and/or the last segment (implied by the adjacent edge)
+                full = [w[0] + w[1] for w in stored]
+                lo = 1 if rng.random() < 0.6 else 0
+                hi = len(full) - 1 if rng.random() < 0.6 else len(full)
+                if hi - lo >= 2 or (hi - lo == 1 and len(full) > 3):
+                    sub_items = full[lo:hi]
             before, after = walk[:2 * i], walk[2 * j + 1:]
             # before ends with an edge item or a segment whose step to the nested start has one fitting edge
             pre_items = []
@@ -262,6 +270,8 @@ def cases(rng, tier, shard, nshards):
             if after:
                 pa, _ = present(rng, after, edges, "full")
                 post_items = pa
+                if rng.random() < 0.5 and n_fitting(edges, sub[-1], after[1]) == 1:
+                    post_items = pa[1:]     # the edge after the nested path is left to be supplied
             if not unique_presentation(sub_items, stored, segs, edges):
                 sub_items, _ = present(rng, stored, edges, "full")
                 if not unique_presentation(sub_items, stored, segs, edges):
@@ -274,10 +284,29 @@ def cases(rng, tier, shard, nshards):
                     p2_items = alt
             if not unique_presentation(p2_items, walk, segs, edges, {"p1": stored}):
                 continue
+            # the reference may be read as "the items of p1, in place" or as "the walk of p1, in
+            # place": the two readings differ when an end of p1 which is an edge item faces a
+            # segment item (restatement of the implied segment vs a further step).  Only lists on
+            # which both readings agree are used.
+            flat = []
+            for it in p2_items:
+                if it[:-1] == "p1":
+                    flat += sub_items if it[-1] == "+" else [x[:-1] + inv(x[-1]) for x in reversed(sub_items)]
+                else:
+                    flat.append(it)
+            if not unique_presentation(flat, walk, segs, edges):
+                continue
+            if sub_items[0][:-1] not in segs or sub_items[-1][:-1] not in segs:
+                expect["_edge_ended_nested"] = True
             groups.append("O\tp1\t" + " ".join(sub_items))
             groups.append("O\tp2\t" + " ".join(p2_items))
             expect["p1"] = stored
             expect["p2"] = walk
+            if rng.random() < 0.35:
+                # one more level: p3 is p2 as a whole, either way round
+                s3 = rng.choice("+-")
+                groups.append("O\tp3\tp2" + s3)
+                expect["p3"] = walk if s3 == "+" else [(w[0], inv(w[1])) for w in reversed(walk)]
         elif kind == "broken":
             items, _ = present(rng, walk, edges, "full")
             how = rng.choice(["foreign-segment", "ambiguous", "gap", "ambiguous-twins"])
@@ -342,6 +371,33 @@ def cases(rng, tier, shard, nshards):
             if not ok:
                 continue
             expect["g1"] = "multiline"
+        elif kind == "multinested":
+            # a group defined on several lines which is itself an item of other groups; the lines of
+            # the outer groups may arrive before, between or after the lines of the inner group
+            rt = rng.choice(["U", "O"])
+            if rt == "O":
+                full = [w[0] + w[1] for w in walk]
+                if len(full) < 3 or not unique_presentation(full, walk, segs, edges):
+                    continue
+                cuts = sorted(rng.sample(range(1, len(full)), min(len(full) - 1, rng.randint(1, 2))))
+                chunks = [full[a:b] for a, b in zip([0] + cuts, cuts + [len(full)])]
+                inner = ["O\tg1\t" + " ".join(c) for c in chunks]
+                expect["g1"] = walk
+            else:
+                pool = segs + [e[0] for e in edges]
+                inner = ["U\tg1\t" + " ".join(rng.choice(pool) for _ in range(rng.randint(1, 3)))
+                         for _ in range(rng.randint(2, 3))]
+            outer = []
+            if rt == "O" and rng.random() < 0.7:
+                sg = rng.choice("+-")
+                outer.append("O\tp9\tg1" + sg)
+                expect["p9"] = walk if sg == "+" else [(w[0], inv(w[1])) for w in reversed(walk)]
+            if rng.random() < 0.7 or not outer:
+                outer.append("U\tu9\t" + " ".join(["g1"] + ([rng.choice(segs)] if rng.random() < 0.4 else [])))
+                expect["u9"] = "set"
+            groups = inner + outer
+            expect["_inner"] = len(inner)
+            expect["_rt"] = rt
         else:
             # sets over segments, edges, a path and a nested set
             items, _ = present(rng, walk, edges)
@@ -385,6 +441,79 @@ def model_induced(case, name, texts, seen=None):
             segs.update(s2)
     ind_edges = set(eid for eid, (a, b) in edges.items() if a in segs and b in segs)
     return segs, ind_edges
+
+
+def run_multinested(case, ctx, rng):
+    lines, groups, expect = list(case["lines"]), list(case["groups"]), case["expect"]
+    ni, rt = expect["_inner"], expect["_rt"]
+    inner, outer = groups[:ni], groups[ni:]
+    perms = list(itertools.permutations(range(len(groups))))
+    if rt == "O":
+        # the items are concatenated in arrival order: the inner lines keep their relative order
+        perms = [p for p in perms if [i for i in p if i < ni] == list(range(ni))]
+    rng.shuffle(perms)
+    for p in perms[:12]:
+        order = [groups[i] for i in p]
+        # the graph lines arrive first, last or mixed in
+        doc = {0: lines + order, 1: order + lines}.get(rng.randrange(3))
+        if doc is None:
+            # random merge of the two sequences, each keeping its order
+            a, b, doc = list(lines), list(order), []
+            while a or b:
+                src = a if (a and (not b or rng.random() < len(a) / (len(a) + len(b)))) else b
+                doc.append(src.pop(0))
+        rr = call(ctx, "Gfa(list)", gfapy.Gfa, doc, version="gfa2")
+        ctx.count("multinested_orders")
+        if not rr.ok:
+            ctx.violation("nested-multiline-group-refused/%s" % rr.cls(), "%r: %s" % (order, str(rr.exc)[:200]))
+            return
+        g = rr.value
+        merged_items = []
+        for gl in order:
+            if gl.split("\t")[1] == "g1":
+                merged_items += gl.split("\t")[2].split(" ")
+        texts = {gl.split("\t")[1]: gl for gl in outer}
+        texts["g1"] = "%s\tg1\t%s" % (rt, " ".join(merged_items))
+        grp = g.line("g1")
+        got_items = [(x.name + x.orient) if isinstance(x, gfapy.OrientedLine) else x.name for x in grp.items]
+        if got_items != merged_items:
+            ctx.violation("multiline-items-not-concatenated/%s/nested" % rt, "arrival order %r: items %r; document %r" % (order, got_items, doc))
+            return
+        for name, exp in expect.items():
+            if name.startswith("_"):
+                continue
+            o = g.line(name)
+            if exp == "set":
+                ws, we = model_induced(case, name, texts)
+                for what, want in (("induced_segments_set", ws), ("induced_edges_set", we)):
+                    r2 = call(ctx, what, lambda: getattr(o, what))
+                    ctx.count("induced_sets")
+                    ctx.count("nested_multiline_resolutions")
+                    if not r2.ok:
+                        ctx.violation("%s-raises/%s/over-multiline-group" % (what, r2.cls()),
+                                      "arrival order %r: %s" % (order, str(r2.exc)[:200]))
+                        return
+                    got = [x.name for x in r2.value]
+                    if set(got) != want or len(got) != len(set(got)):
+                        ctx.violation("%s-differs/over-multiline-group" % what, "arrival order %r: gfapy %r, model %r"
+                                      % (order, sorted(got), sorted(want)))
+                        return
+            else:
+                walk = [tuple(w) for w in exp]
+                cp = call(ctx, "captured_path", lambda: o.captured_path)
+                ctx.count("captured_paths")
+                ctx.count("nested_multiline_resolutions")
+                if not cp.ok:
+                    ctx.violation("captured_path-raises/%s/over-multiline-group" % cp.cls(),
+                                  "arrival order %r, %s should resolve to %r: %s" % (order, name, walk, str(cp.exc)[:200]))
+                    return
+                got = [(x.name, x.orient) for x in cp.value]
+                if got != walk:
+                    ctx.violation("captured_path-differs/over-multiline-group", "arrival order %r, %s: gfapy %r, expected %r"
+                                  % (order, name, got, walk))
+                    return
+    ctx.nontriv([lines, groups])
+    ctx.sample({"kind": "multinested", "groups": groups})
 
 
 def run(case, ctx):
@@ -450,6 +579,8 @@ def run(case, ctx):
         ctx.nontriv([case["lines"], groups])
         ctx.sample({"kind": kind, "groups": groups})
         return
+    if kind == "multinested":
+        return run_multinested(case, ctx, rng)
     doc = lines + groups
     rng.shuffle(doc)
     if rng.random() < 0.4:
@@ -476,7 +607,11 @@ def run(case, ctx):
             return
         g = rr.value
     texts = {gl.split("\t")[1]: gl for gl in groups}
+    if case["expect"].get("_edge_ended_nested"):
+        ctx.count("nested_paths_with_edge_ends")
     for name, exp in case["expect"].items():
+        if name.startswith("_"):
+            continue
         grp = g.line(name)
         if exp == "error":
             cp = call(ctx, "captured_path", lambda: grp.captured_path)
